@@ -192,4 +192,108 @@ func runEngineO4(p *Prog, o *obls) {
 		}
 	}
 	o.ok("O4", "inspected", "-", fmt.Sprintf("%d NewInterceptor factory method(s)", n))
+	o4MakerClosures(p, o)
+}
+
+// o4MakerClosures — clause (c): a factory may keep a *function* that builds a part of every interceptor (the
+// bandwidth-estimator factory of pkg/cc). Function values are configuration and (a)/(b) do not judge them — but a
+// function literal of the repository that can be that value must build what it returns. For every function-typed field
+// of a type with a NewInterceptor method, every function literal of the repository with an identical signature that is
+// not created inside a NewInterceptor method: no return hands back a stateful object (or an interface holding one)
+// that the literal merely captured — each call would hand every interceptor the same object.
+func o4MakerClosures(p *Prog, o *obls) {
+	var makerSigs []*types.Signature
+	var where []string
+	seen := map[*types.Named]bool{}
+	for _, fn := range p.Funcs {
+		if fn.Name() != "NewInterceptor" || fn.Signature.Recv() == nil {
+			continue
+		}
+		nt := namedOf(deref(fn.Signature.Recv().Type()))
+		if nt == nil || seen[nt] {
+			continue
+		}
+		seen[nt] = true
+		st, ok := nt.Underlying().(*types.Struct)
+		if !ok {
+			continue
+		}
+		for i := 0; i < st.NumFields(); i++ {
+			if sig, ok := st.Field(i).Type().Underlying().(*types.Signature); ok && sig.Results().Len() >= 1 {
+				makerSigs = append(makerSigs, sig)
+				where = append(where, typeKey(nt)+"."+st.Field(i).Name())
+			}
+		}
+	}
+	n := 0
+	for _, fn := range p.Funcs {
+		if fn.Parent() == nil || fn.Blocks == nil {
+			continue
+		}
+		inFactoryMethod := false
+		for q := fn.Parent(); q != nil; q = q.Parent() {
+			if q.Name() == "NewInterceptor" && q.Signature.Recv() != nil {
+				inFactoryMethod = true
+			}
+		}
+		if inFactoryMethod {
+			continue
+		}
+		field := ""
+		for i, sig := range makerSigs {
+			if types.Identical(sig, fn.Signature) {
+				field = where[i]
+			}
+		}
+		if field == "" {
+			continue
+		}
+		n++
+		var bad []string
+		for _, b := range fn.Blocks {
+			ret, ok := b.Instrs[len(b.Instrs)-1].(*ssa.Return)
+			if !ok || len(ret.Results) == 0 {
+				continue
+			}
+			// peeled by hand: origin() would follow the captured cell into the enclosing function
+			v := ret.Results[0]
+			for k := 0; k < 4; k++ {
+				switch x := v.(type) {
+				case *ssa.MakeInterface:
+					v = x.X
+				case *ssa.ChangeType:
+					v = x.X
+				case *ssa.ChangeInterface:
+					v = x.X
+				}
+			}
+			var fv *ssa.FreeVar
+			t := v.Type()
+			if u, ok := v.(*ssa.UnOp); ok && u.Op == token.MUL {
+				fv, _ = u.X.(*ssa.FreeVar) // captured by reference: the cell's content is returned
+			} else {
+				fv, _ = v.(*ssa.FreeVar)
+			}
+			if fv == nil {
+				continue
+			}
+			stateful := false
+			if pt, ok := t.Underlying().(*types.Pointer); ok && statefulType(pt.Elem(), 0) {
+				stateful = true
+			}
+			if _, isIface := t.Underlying().(*types.Interface); isIface {
+				stateful = true // an interface value built once outside the literal: whatever it holds is shared
+			}
+			if stateful {
+				bad = append(bad, fmt.Sprintf("the return at %s hands back the captured %s, built once outside the literal: every interceptor the factory builds gets the same object", p.instrPos(ret), fv.Name()))
+			}
+		}
+		key := funcKey(fn) + ":maker-builds"
+		if len(bad) > 0 {
+			o.bad("O4", key, p.Pos(fn.Pos()), strings.Join(dedupe(bad), "; ")+fmt.Sprintf(" (the literal has the signature of %s, which NewInterceptor calls once per interceptor)", field))
+		} else {
+			o.ok("O4", key, p.Pos(fn.Pos()), fmt.Sprintf("a literal with the signature of %s: what it returns is built inside it", field))
+		}
+	}
+	o.ok("O4", "makers", "-", fmt.Sprintf("%d function literal(s) that can be a factory's per-interceptor maker", n))
 }
